@@ -4,5 +4,8 @@ set -eu
 cd /verif
 export CARGO_NET_OFFLINE=true
 mkdir -p .work evidence
-( cd harness && cargo build --offline -p rtprops -p cprops )
+( cd harness && cargo build --offline -p rtprops -p cprops -p pxe2e )
+./tools/mk_toolchain.sh
+( cd /repo && cargo build --offline -p pavexc_cli --bin pavexc --target-dir /verif/.work/target-pavexc )
+./.work/target/debug/pxe2e warm
 echo "setup done"
